@@ -2,8 +2,8 @@ package util
 
 import (
 	"fmt"
-	"os"
 	"hash/fnv"
+	"os"
 	"sort"
 	"strings"
 	"testing"
